@@ -24,7 +24,7 @@ Record mstate := { ms_tab : table; ms_pend : pend; ms_now : N }.
 Definition ms_init : mstate := {| ms_tab := []; ms_pend := PNone; ms_now := 0 |}.
 
 Definition grp_msgs (gs : list group) : list (list N * list N) :=
-  flat_map (fun g => map (fun m => (fst g, m)) (snd g)) gs.
+  flat_map (fun g => map (fun e => (fst g, snd e)) (snd g)) gs.
 
 (* None: the step is not enabled in this state (another submission is in flight, nothing to admit...) *)
 Definition micro (s : mstate) (st : mstep) : option (mstate * list (list N * list N)) :=
